@@ -1235,6 +1235,7 @@ func (e *verifEnv) driveAll(first *verifChange, overlapAt int, faultsOn bool) ([
 	c := e.c
 	active := []*verifChange{first}
 	idle := 0
+	lastSig, stale := "", 0
 	for step := 1; ; step++ {
 		if step > 1500 {
 			c.Fatalf("change %s (%s) does not settle within 1500 simulator steps: %s", first.id, first.summary, e.statusLine(first.id))
@@ -1336,15 +1337,27 @@ func (e *verifEnv) driveAll(first *verifChange, overlapAt int, faultsOn bool) ([
 			idle = 0
 			continue
 		}
-		if e.progress {
+		// nothing is parked: did the last passes get anywhere? (a task that
+		// asks for a retry again and again runs but changes nothing)
+		sig := ""
+		for _, ch := range active {
+			sig += e.statusLine(ch.id) + "|"
+		}
+		if sig == lastSig {
+			stale++
+		} else {
+			lastSig, stale = sig, 0
+		}
+		if e.progress && stale <= 60 {
 			e.progress = false
 			idle = 0
 			continue
 		}
 		idle++
-		if idle > 60 {
-			// Half a simulated minute of ensure passes that start nothing,
-			// with nothing in flight: the change will never settle. The
+		if stale > 60 {
+			// Sixty ensure passes (half a simulated minute) with nothing in
+			// flight after which no task has another status than before:
+			// the change will never settle. The
 			// statement only speaks about settled changes, so this is no
 			// verdict of C22; the run ends here (the stuck change blocks
 			// further requests on its snaps). Seen when an abort arrives
@@ -1549,7 +1562,13 @@ func (e *verifEnv) evaluate(active []*verifChange) {
 	// reported a second time when sentence 1 already found one side not
 	// restored)
 	if len(c.Violations) == 0 {
-		e.checkSync(post, "after-settled-change", blamed.plan.op, blamed.fault())
+		fault := blamed.fault()
+		if len(active) > 1 {
+			// what only shows when two changes were in progress together is
+			// filed apart from what a single change does
+			fault += ".overlapped"
+		}
+		e.checkSync(post, "after-settled-change", blamed.plan.op, fault)
 	}
 	for _, ch := range active {
 		delete(e.plans, ch.id)
